@@ -123,6 +123,10 @@ func oracleC07(w *World, op *Op) {
 			s.Probe("c07.aligned-shorter")
 		}
 		if op.Status != 200 {
+			if w.mode.External && len(op.StoreOps) > 0 {
+				s.Probe("c07.store-fault-gave-error") // spec C07ext: a failing chain store or cache may cost the answer, never bend it
+				return
+			}
 			if e := w.expect(op); !e.faulty {
 				s.Violate("clean-read-failed", op.Kind, "op%03d get-entries(%d,%d) answered %d with a healthy backend: %s", op.ID, op.A, op.B, op.Status, firstLine(op.RespBody))
 			}
